@@ -32,6 +32,11 @@ CHECKS = {
    text="Seeded sequences of append (payloads incl. empty and repeated) / ResetSize / Sync / close-reopen / crash-reopen (crash images incl. crashes in the middle of the previous operation) on the real ahtree under an option swarm (sync threshold, 1-slot caches, tiny files); after the steps the whole public surface for sizes up to 40 is compared with a reference Merkle construction written from the definition: Root, RootAt(k), DataAt, InclusionProof and ConsistencyProof for index pairs (all pairs on full verification), verified with the real verifiers and with an independent reference verifier; altered proofs (dropped/extra/flipped/swapped/duplicated terms) and altered claims (shifted i, j, swapped roots, wrong leaf) must be rejected unless the reference verifier accepts the altered claim. htree (per-transaction tree): widths 1..33, all leaves, same reference, altered leaf index/width/terms.",
    note="Reference tree and reference inclusion verifier in checks/merkle_ref_test.go. Consistency-proof soundness is checked for altered terms and altered roots only (no independent verifier of immudb's consistency-proof format).",
    technique="deterministic simulation: seeded op/crash sequences vs reference Merkle tree + tampered-proof injection"),
+ "C10": dict(
+   level="exploration", design="DESIGN.md §7 C10",
+   text="Seeded operation sequences on the real tbtree under an option swarm (minimal node sizes forcing deep trees and splits, 1-slot cache, flush/sync/buffer thresholds, snapshot limits, compaction threshold, tiny files, snapshot renewal period on the simulated clock): bulk inserts (auto and explicit timestamps), IncreaseTs, flushes with cleanup, Sync, Compact, up to 3 open snapshots read at arbitrary later points, readers with random seek/end/prefix/direction/offset specs, Get, GetBetween, History (both directions, offset/limit), GetWithPrefix, close/reopen and crash/reopen. Model: key -> versions, one immutable copy per logical time; a snapshot must keep answering from the state of the logical time it reports (>= the time it was asked to include).",
+   note="ReaderSpec.Offset only without history; ReadBetween/IncludeHistory readers are not generated. After the first crash recovery has been validated, anomalies are attributed to the recorded stale-log-tail finding (see known_findings.json).",
+   technique="deterministic simulation: seeded op/crash sequences vs multi-version map model with per-timestamp states"),
 }
 
 NOT_APPLICABLE = [
